@@ -141,11 +141,12 @@ impl Ev {
             None => f64::NAN,
         }
     }
-    fn engine_event(&self, exch: &[(ExchangeId, ExchangeIndex)]) -> EngineEvent<DataKind> {
+    /// `rd`: MarketEvent.time_received - time_exchange (ms) of a market event
+    fn engine_event(&self, exch: &[(ExchangeId, ExchangeIndex)], rd: i64) -> EngineEvent<DataKind> {
         let market = |inst: u64, time: i64, kind: DataKind| {
             EngineEvent::Market(MarketStreamEvent::Item(MarketEvent {
                 time_exchange: time_of(time),
-                time_received: time_of(time),
+                time_received: time_of(time + rd),
                 exchange: exch[inst as usize].0,
                 instrument: InstrumentIndex(inst as usize),
                 kind,
@@ -209,22 +210,23 @@ impl Ev {
     fn coq_lvl(l: &Option<(Decimal, Decimal)>) -> String {
         opt(l.map(|(p, a)| pair(&dec_q(p), &dec_q(a))))
     }
-    fn coq(&self) -> String {
+    fn coq(&self, rd: i64) -> String {
         match self {
             Ev::Trade { inst, time, quarter } => {
                 // the conversion the code applies, done by the same library function
                 let p = Decimal::from_f64(Ev::trade_price_f64(*quarter));
-                format!("(OMarket {} (OMTrade {} {}))", n(*inst as u128), z(*time as i128), opt(p.map(dec_q)))
+                format!("(OMarket {} {} (OMTrade {} {}))", n(*inst as u128), z((*time + rd) as i128), z(*time as i128), opt(p.map(dec_q)))
             }
             Ev::L1 { inst, time, lt, bid, ask } => format!(
-                "(OMarket {} (OML1 {} {} {} {}))",
+                "(OMarket {} {} (OML1 {} {} {} {}))",
                 n(*inst as u128),
+                z((*time + rd) as i128),
                 z(*time as i128),
                 z(*lt as i128),
                 Ev::coq_lvl(bid),
                 Ev::coq_lvl(ask)
             ),
-            Ev::Other { inst, time, .. } => format!("(OMarket {} (OMOther {}))", n(*inst as u128), z(*time as i128)),
+            Ev::Other { inst, time, .. } => format!("(OMarket {} {} (OMOther {}))", n(*inst as u128), z((*time + rd) as i128), z(*time as i128)),
             Ev::Fill { id, inst, time, buy, price, qty, fee } => format!(
                 "(OFill (mkOF {} {} {} {} {} {} {}))",
                 n(*id as u128),
@@ -427,7 +429,7 @@ fn coq_inst(s: &InstrumentState<DefaultInstrumentMarketData>) -> (String, String
     )
 }
 
-fn run_case(insts: &[Inst], evs: &[Ev]) -> (String, Vec<String>) {
+fn run_case(insts: &[Inst], evs: &[Ev], rds: &[i64]) -> (String, Vec<String>) {
     let mut tags = vec![];
     let (mut engine, exch) = build_engine(insts);
     let descr: Vec<(String, String)> = engine.state.instruments.0.values().map(coq_inst).collect();
@@ -436,7 +438,19 @@ fn run_case(insts: &[Inst], evs: &[Ev]) -> (String, Vec<String>) {
     }
     let mut obs = vec![];
     let mut frame_ok = true;
-    for ev in evs {
+    for (k, ev) in evs.iter().enumerate() {
+        let rd = rds.get(k).copied().unwrap_or(0);
+        if !matches!(ev, Ev::Fill { .. }) {
+            tags.push(
+                match rd {
+                    0 => "received_eq_exchange",
+                    d if d < 0 => "received_before_exchange",
+                    d if d < 1000 => "received_small_latency",
+                    _ => "received_large_latency",
+                }
+                .to_string(),
+            );
+        }
         let i = ev.inst() as usize;
         let before: Vec<_> = engine.state.instruments.0.values().cloned().collect();
         let had_pos = before[i].position.current.is_some();
@@ -445,7 +459,7 @@ fn run_case(insts: &[Inst], evs: &[Ev]) -> (String, Vec<String>) {
             move || d.price()
         })
         .unwrap_or(None);
-        let audit = engine.process(ev.engine_event(&exch));
+        let audit = engine.process(ev.engine_event(&exch, rd));
         let mut exit = None;
         if let EngineAudit::Process(pa) = audit {
             for o in pa.outputs.into_iter() {
@@ -504,7 +518,7 @@ fn run_case(insts: &[Inst], evs: &[Ev]) -> (String, Vec<String>) {
     let coq = format!(
         "(CEngine {} {} {} {} {})",
         list(&descr.iter().map(|d| d.0.clone()).collect::<Vec<_>>()),
-        list(&evs.iter().map(|e| e.coq()).collect::<Vec<_>>()),
+        list(&evs.iter().enumerate().map(|(k, e)| e.coq(rds.get(k).copied().unwrap_or(0))).collect::<Vec<_>>()),
         list(&obs),
         list(&fin),
         b(frame_ok)
@@ -512,10 +526,11 @@ fn run_case(insts: &[Inst], evs: &[Ev]) -> (String, Vec<String>) {
     (coq, tags)
 }
 
-fn emit(em: &mut Emitter, stream: &'static str, insts: &[Inst], evs: &[Ev]) {
+fn emit(em: &mut Emitter, stream: &'static str, insts: &[Inst], evs: &[Ev], rds: &[i64]) {
     let evs2 = evs.to_vec();
     let insts2 = insts.to_vec();
-    let r = catch(move || run_case(&insts2, &evs2));
+    let rds2 = rds.to_vec();
+    let r = catch(move || run_case(&insts2, &evs2, &rds2));
     let (coq, tags) = match r {
         Ok(x) => x,
         Err(msg) => {
@@ -524,7 +539,7 @@ fn emit(em: &mut Emitter, stream: &'static str, insts: &[Inst], evs: &[Ev]) {
                 format!(
                     "(CEngine {} {} [] [] false)",
                     list(&insts.iter().map(|i| i.coq()).collect::<Vec<_>>()),
-                    list(&evs.iter().map(|e| e.coq()).collect::<Vec<_>>())
+                    list(&evs.iter().enumerate().map(|(k, e)| e.coq(rds.get(k).copied().unwrap_or(0))).collect::<Vec<_>>())
                 ),
                 vec![format!("panic:{}", msg.chars().take(60).collect::<String>())],
             )
@@ -534,7 +549,13 @@ fn emit(em: &mut Emitter, stream: &'static str, insts: &[Inst], evs: &[Ev]) {
     let has_market = evs.iter().any(|e| !matches!(e, Ev::Fill { .. }));
     em.emit(Case {
         stream,
-        input: json!({"insts": insts.iter().map(|i| i.to_json()).collect::<Vec<_>>(), "events": evs.iter().map(|e| e.to_json()).collect::<Vec<_>>()}),
+        input: json!({"insts": insts.iter().map(|i| i.to_json()).collect::<Vec<_>>(), "events": evs.iter().enumerate().map(|(k, e)| {
+            let mut j = e.to_json();
+            if !matches!(e, Ev::Fill { .. }) {
+                j["rd"] = json!(rds.get(k).copied().unwrap_or(0));
+            }
+            j
+        }).collect::<Vec<_>>()}),
         coq,
         nontrivial: has_fill && has_market,
         tags,
@@ -581,6 +602,25 @@ fn gen_insts(r: &mut Rng) -> Vec<Inst> {
                 size: if kind == 0 { Decimal::ONE } else { *r.pick(&sizes) },
                 settle_quote: kind == 0 || r.chance(1, 2),
             }
+        })
+        .collect()
+}
+
+/// MarketEvent.time_received - time_exchange per event: a history has a base latency class (none,
+/// a few ms, larger than the usual gap between events) with per-event jitter, and occasionally a
+/// receive time BEFORE the exchange stamp (clock skew)
+fn gen_rds(r: &mut Rng, len: usize) -> Vec<i64> {
+    let class = r.below(4);
+    (0..len)
+        .map(|_| match r.below(10) {
+            0 => -(r.below(4_000) as i64) - 1,
+            1 => 0,
+            _ => match class {
+                0 => 0,
+                1 => r.below(50) as i64,
+                2 => 3_000 + r.below(20_000) as i64,
+                _ => *r.pick(&[0i64, 3, 800, 6_000, 60_000]),
+            },
         })
         .collect()
 }
@@ -763,7 +803,11 @@ fn table(em: &mut Emitter) {
                     // market-data x event class meets spot and derivative instruments
                     let insts = &sets[case_no % sets.len()];
                     case_no += 1;
-                    emit(em, "table", insts, &evs);
+                    // receive-time latency rotates too: none / a few ms / larger than every gap
+                    // between the table's events / received before the exchange stamp
+                    let lat = [0i64, 7, 10_000, -1_500, 900][(case_no / 2) % 5];
+                    let rds: Vec<i64> = evs.iter().map(|_| lat).collect();
+                    emit(em, "table", insts, &evs, &rds);
                 }
             }
         }
@@ -781,17 +825,20 @@ fn main() {
             table(&mut em);
             for _ in 0..n_rand {
                 let (insts, evs) = gen_history(&mut r, max_len, false);
-                emit(&mut em, "random", &insts, &evs);
+                let rds = gen_rds(&mut r, evs.len());
+                emit(&mut em, "random", &insts, &evs, &rds);
             }
             for _ in 0..n_adv {
                 let (insts, evs) = gen_history(&mut r, max_len, true);
-                emit(&mut em, "adversarial", &insts, &evs);
+                let rds = gen_rds(&mut r, evs.len());
+                emit(&mut em, "adversarial", &insts, &evs, &rds);
             }
         }
         "exec" => {
             for (inp, stream) in read_inputs(args.input.as_deref().expect("--in")) {
                 let evs: Vec<Ev> = inp["events"].as_array().unwrap().iter().map(Ev::from_json).collect();
-                emit(&mut em, stream_static(&stream), &insts_from_json(&inp), &evs);
+                let rds: Vec<i64> = inp["events"].as_array().unwrap().iter().map(|e| e["rd"].as_i64().unwrap_or(0)).collect();
+                emit(&mut em, stream_static(&stream), &insts_from_json(&inp), &evs, &rds);
             }
         }
         m => panic!("unknown mode {m}"),
